@@ -59,10 +59,21 @@ Proof.
   destruct (c !! i); reflexivity.
 Qed.
 
-(* C12, first clause: no step of any kind makes any node's record of any member older. *)
-Lemma step_grows strict c o : cle c (step strict c o).
+Lemma cle_insert_grow (c : cluster) i v v' : c !! i = Some v -> vle v v' -> cle c (<[i := v']> c).
 Proof.
-  destruct o as [i j|i|i s|i].
+  intros Hi Hle l w Hl. destruct (decide (l = i)) as [->|Hne].
+  - rewrite lookup_insert. exists v'. split; [reflexivity|]. rewrite Hi in Hl. inversion Hl; subst. exact Hle.
+  - rewrite lookup_insert_ne by congruence. exists w. split; [assumption|apply vle_refl].
+Qed.
+
+Lemma bstep_step strict c o : (forall i j inner, o <> ExchangeN i j inner) -> step strict c o = bstep strict c o.
+Proof. destruct o; try reflexivity. intros H. exfalso. eapply H. reflexivity. Qed.
+
+(* C12, first clause: no step of any kind makes any node's record of any member older. *)
+Lemma bstep_grows strict c o : cle c (bstep strict c o).
+Proof.
+  destruct o as [i j|i|i s|i|i j inner]; [| | | |apply cle_refl].
+  all: rewrite <- bstep_step by (intros; discriminate).
   - destruct (decide (i = j)) as [->|Hne]; [rewrite step_exchange_noop by auto; apply cle_refl|].
     destruct (c !! i) as [vi|] eqn:Ei; [|rewrite step_exchange_noop by auto; apply cle_refl].
     destruct (c !! j) as [vj|] eqn:Ej; [|rewrite step_exchange_noop by auto; apply cle_refl].
@@ -78,6 +89,29 @@ Proof.
   - apply upd_host_grows. intros m. right. simpl. apply hb_incr_older.
   - apply upd_host_grows. intros m. right. simpl. apply hb_restart_older. lia.
 Qed.
+
+Lemma inner_grows strict inner : forall c,
+  cle c (fold_left (fun c kl => bstep strict c (inner_op kl)) inner c).
+Proof.
+  induction inner as [|kl r IH]; intros c; cbn [fold_left]; [apply cle_refl|].
+  eapply cle_trans; [apply bstep_grows|apply IH].
+Qed.
+
+Lemma step_grows strict c o : cle c (step strict c o).
+Proof.
+  destruct o as [i j|i|i s|i|i j inner]; try apply bstep_grows.
+  cbn [step]. destruct (decide (i = j)); [apply cle_refl|].
+  destruct (c !! i) as [vi0|]; [|apply cle_refl]. destruct (c !! j) as [vj0|]; [|apply cle_refl].
+  set (c1 := fold_left (fun c kl => bstep strict c (inner_op kl)) inner c).
+  eapply cle_trans; [apply inner_grows|]. fold c1.
+  destruct (c1 !! i) as [vi1|] eqn:Ei1; [|apply cle_refl].
+  unfold ack. set (vi' := merge vi1 (msg_nodes (sync vj0 (view_digests vi0)))).
+  set (c2 := <[i := vi']> c1).
+  assert (H12 : cle c1 c2) by (apply (cle_insert_grow c1 i vi1 vi' Ei1), merge_vle_l).
+  destruct (c2 !! j) as [vj1|] eqn:Ej2; [|exact H12].
+  eapply cle_trans; [exact H12|]. apply (cle_insert_grow c2 j vj1); [assumption|apply merge_vle_l].
+Qed.
+
 
 Lemma run_grows strict ops : forall c, cle c (run strict c ops).
 Proof.
